@@ -138,7 +138,7 @@ func checkC02(c *Ctx, r *Report) {
 			bad = append(bad, "the rebinding store is not inside a range over the tag registry")
 		} else {
 			rg, _ := next.Iter.(*ssa.Range)
-			if rg == nil || c.accessPath(rg.X, &Frame{Fn: rf}) != "global:tagRegistry" {
+			if rg == nil || c.accessPath(rg.X, &Frame{Fn: rf}) != globalPath(c.names().TagRegistry) {
 				bad = append(bad, "the loop does not range over the tag registry")
 			}
 			// unconditional in the body: the only guard is the loop's ok
@@ -267,7 +267,7 @@ func checkC02(c *Ctx, r *Report) {
 				nInit, nRoot := 0, 0
 				for _, st := range storesTo(cell) {
 					p := c.prov(st.Val, &Frame{Fn: st.Parent()}).String()
-					if p == "global:defaultLogger" {
+					if p == globalPath(c.names().DefaultLogger) {
 						nInit++
 						continue
 					}
@@ -693,10 +693,6 @@ func checkC16(c *Ctx, r *Report) {
 	}
 	r.Floor("hot-path reads of the bindings", nReads, 2)
 	// fallback: the function that returns a tag's logger returns the built-in logger on the nil edge
-	if gl := c.logFunc("getLogger"); gl != nil {
-		p := c.prov(&ssa.Const{}, nil)
-		_ = p
-	}
 	c.checkFallback(r, ro, bind)
 	// ---- C16.unbind / destroy
 	c.checkDestroy(r, bind)
@@ -714,7 +710,7 @@ func checkC16(c *Ctx, r *Report) {
 		ok := false
 		first := f.Blocks[0]
 		if iff, isIf := first.Instrs[len(first.Instrs)-1].(*ssa.If); isIf {
-			if c.accessPath(iff.Cond, &Frame{Fn: f}) == "global:global.init" {
+			if c.accessPath(iff.Cond, &Frame{Fn: f}) == c.names().InitFlag {
 				if _, isP := first.Succs[0].Instrs[len(first.Succs[0].Instrs)-1].(*ssa.Panic); isP {
 					ok = true
 				}
@@ -751,7 +747,7 @@ func instrKind(in ssa.Instruction) string {
 
 // checkFallback: wherever a binding is nil-tested on the hot path, the nil edge yields the built-in logger.
 func (c *Ctx) checkFallback(r *Report, ro *Roles, bind map[*types.Var]string) {
-	def := c.logGlobal("defaultLogger")
+	def := c.names().DefaultLogger
 	if def == nil {
 		r.Undecided("C16.fallback:defaultLogger", "", "built-in logger variable not found")
 		return
@@ -826,7 +822,7 @@ func (c *Ctx) checkDestroy(r *Report, bind map[*types.Var]string) {
 	var bad []string
 	first := d.Blocks[0]
 	iff, ok := first.Instrs[len(first.Instrs)-1].(*ssa.If)
-	if !ok || c.accessPath(iff.Cond, fr) != "global:global.init" {
+	if !ok || c.accessPath(iff.Cond, fr) != c.names().InitFlag {
 		bad = append(bad, "Destroy does not start with the initialised test")
 	} else {
 		notInit := first.Succs[1]
@@ -836,7 +832,7 @@ func (c *Ctx) checkDestroy(r *Report, bind map[*types.Var]string) {
 	}
 	// stores on every other path (post-dominating the init edge): global.init=false, lists=nil
 	pd := postDominators(d)
-	need := map[string]bool{"global:global.init": false, "global:global.loggers": false, "global:global.appenders": false}
+	need := map[string]bool{c.names().InitFlag: false, c.names().LoggerList: false, c.names().AppenderList: false}
 	var initBlk *ssa.BasicBlock
 	if ok {
 		initBlk = first.Succs[0]
@@ -870,7 +866,7 @@ func (c *Ctx) checkDestroy(r *Report, bind map[*types.Var]string) {
 		r.OK(key, "returns at once when not initialised; otherwise clears the flag and both lists on every path")
 	}
 	// unbind loops
-	reg := map[string]string{"Tag.logger": "global:tagRegistry", "LoggerWrapper.logger": "global:loggerMap"}
+	reg := map[string]string{"Tag.logger": globalPath(c.names().TagRegistry), "LoggerWrapper.logger": globalPath(c.names().HandleMap)}
 	for f, name := range bind {
 		key := "C16.unbind:Destroy#" + name
 		found := false
@@ -937,7 +933,7 @@ func (c *Ctx) checkOnceGuard(r *Report, bind map[*types.Var]string) {
 	fr := &Frame{Fn: rf}
 	var guard *ssa.If
 	for _, b := range rf.Blocks {
-		if iff, ok := b.Instrs[len(b.Instrs)-1].(*ssa.If); ok && c.accessPath(iff.Cond, fr) == "global:global.init" {
+		if iff, ok := b.Instrs[len(b.Instrs)-1].(*ssa.If); ok && c.accessPath(iff.Cond, fr) == c.names().InitFlag {
 			guard = iff
 		}
 	}
@@ -990,7 +986,7 @@ func (c *Ctx) checkOnceGuard(r *Report, bind map[*types.Var]string) {
 	// the flag is set on the false edge
 	set := false
 	eachInstr(rf, func(in ssa.Instruction) {
-		if st, ok := in.(*ssa.Store); ok && c.accessPath(st.Addr, fr) == "global:global.init" {
+		if st, ok := in.(*ssa.Store); ok && c.accessPath(st.Addr, fr) == c.names().InitFlag {
 			if k, okc := constOf(st.Val); okc && k.ExactString() == "true" && (fb == in.Block() || fb.Dominates(in.Block())) {
 				set = true
 			}
@@ -1002,7 +998,7 @@ func (c *Ctx) checkOnceGuard(r *Report, bind map[*types.Var]string) {
 	// the flag is raised before the first effect, so that Destroy can always undo a Refresh that fails later
 	var setInstr ssa.Instruction
 	eachInstr(rf, func(in ssa.Instruction) {
-		if st, ok := in.(*ssa.Store); ok && c.accessPath(st.Addr, fr) == "global:global.init" {
+		if st, ok := in.(*ssa.Store); ok && c.accessPath(st.Addr, fr) == c.names().InitFlag {
 			if k, okc := constOf(st.Val); okc && k.ExactString() == "true" {
 				setInstr = in
 			}
